@@ -146,19 +146,4 @@ def encodeOWith (tightNil : Bool) (e : Enc) (d : Dev) (o : Opts) (tf vf : Nat) (
 def encodeO (e : Enc) (d : Dev) (o : Opts) (tf vf : Nat) (t : GoType) (v : GoVal) : JV :=
   encodeOWith omitTightNilCurrent e d o tf vf t v
 
-/-- Somewhere in the value the reflective map walker meets an empty string as a map value (behind
-at most one pointer): the one place where the tight and the indented writer differ under `OmitNil`
-without `OmitEmpty`. Over-approximates by not following the plan (fields the plan skips count). -/
-def hasEmptyStrMapValue : Nat → GoVal → Bool
-  | 0, _ => true
-  | n + 1, v =>
-    match v with
-    | .map kvs => kvs.any fun kv => isEmptyStr kv.2 || (match kv.2 with | .ptr x => isEmptyStr x | _ => false) || hasEmptyStrMapValue n kv.2
-    | .slice xs => xs.any (hasEmptyStrMapValue n)
-    | .arr xs => xs.any (hasEmptyStrMapValue n)
-    | .struct xs => xs.any (hasEmptyStrMapValue n)
-    | .ptr x => hasEmptyStrMapValue n x
-    | .iface _ x => hasEmptyStrMapValue n x
-    | _ => false
-
 end OjgVerif.Reflect
